@@ -215,7 +215,9 @@ def check(ctx):
             continue
         p = Prov(fn)
         for i, r in enumerate(rs):
-            nsites += 1
+            # a site inside a helper extracted from several audited sites stands for each of the helper's call sites
+            audited_owner = common.owner_qual(fn) in ("call_result_setter::populate_context_from_data", "prev_result_handler::handle_prev_state")
+            nsites += 1 if audited_owner else max(1, sum(1 for g in F.fns.values() if g.crate == "air" for c_ in g.calls if c_.cid == fn.id))
             okb = lib.result_edges(fn, r).get("ok")
             vcs = [c for c in fn.calls_to("verifier::verify_call") if okb is not None and fn.dominates(okb, c.bb)
                    and any(s[0] == "call" and s[3] is r for s in walk(p.operand(c.args[2])))]
